@@ -51,22 +51,23 @@ Theorem writer_maximal_schedule_returns : forall chunks s,
 Proof. exact maximal_returned. Qed.
 Print Assumptions writer_maximal_schedule_returns.
 
-(* non-vacuity: a three-chunk producer (one chunk empty) can run to completion with everything delivered *)
+(* non-vacuity: a two-chunk producer (one chunk empty) can run to completion with everything delivered *)
+Local Notation mk l c p a gg r := {| left := l; cur := c; pclosed := p; acc := a; g := gg; returned := r |} (only parsing).
 Example writer_run_nonvacuous :
-  exists s, reach (init [[1;2]; []; [3]]) s /\ returned s = true /\ g s = GDone false /\ acc s = [1;2;3].
+  exists s, reach (init [[7]; []]) s /\ returned s = true /\ g s = GDone false /\ acc s = [7].
 Proof.
-  eexists. split.
-  - eapply reach_step. eapply reach_step. eapply reach_step. eapply reach_step. eapply reach_step.
-    eapply reach_step. eapply reach_step. eapply reach_step. eapply reach_step. eapply reach_step. apply reach_refl.
-    + eapply SWriteStart; reflexivity.
-    + apply (SRendezvous _ [1;2] 1); [reflexivity|reflexivity|simpl; lia].
-    + apply (SRendezvous _ [2] 1); [reflexivity|reflexivity|simpl; lia].
-    + eapply SWriteStart; reflexivity.
-    + apply SRendezvousEmpty; reflexivity.
-    + eapply SWriteStart; reflexivity.
-    + apply (SRendezvous _ [3] 1); [reflexivity|reflexivity|simpl; lia].
-    + apply SClose; reflexivity.
-    + apply SEof; reflexivity.
-    + eapply SCloseReturns; reflexivity.
-  - simpl. auto.
+  exists (mk [] None true [7] (GDone false) true). split; [|auto].
+  apply (reach_step _ (mk [] None true [7] (GDone false) false));
+    [|apply (SCloseReturns (mk [] None true [7] (GDone false) false) false); reflexivity].
+  apply (reach_step _ (mk [] None true [7] GReading false));
+    [|apply (SEof (mk [] None true [7] GReading false)); reflexivity].
+  apply (reach_step _ (mk [] None false [7] GReading false));
+    [|apply (SClose (mk [] None false [7] GReading false)); reflexivity].
+  apply (reach_step _ (mk [] (Some []) false [7] GReading false));
+    [|apply (SRendezvousEmpty (mk [] (Some []) false [7] GReading false)); reflexivity].
+  apply (reach_step _ (mk [[]] None false [7] GReading false));
+    [|apply (SWriteStart (mk [[]] None false [7] GReading false) [] []); reflexivity].
+  apply (reach_step _ (mk [[]] (Some [7]) false [] GReading false));
+    [|apply (SRendezvous (mk [[]] (Some [7]) false [] GReading false) [7] 1); [reflexivity|reflexivity|simpl; lia]].
+  apply (reach_step _ (init [[7]; []])); [apply reach_refl|apply (SWriteStart (init [[7]; []]) [7] [[]]); reflexivity].
 Qed.
